@@ -369,26 +369,34 @@ pub fn defcal_for(rng: &mut Rng, mode: Mode, headers: &[Header], h: &Header, max
     defcal_text(header, body)
 }
 
-/// A random program: declarations, `ncal` calibrations (gate and measurement), `nbody` body instructions.
-/// Returned as the instruction list handed to `Program::from_instructions` (definitions may repeat a
-/// signature: the later one replaces the earlier in place).
-pub fn random_program(rng: &mut Rng, mode: Mode, ncal: u64, nbody: u64, elsewhere: bool) -> Vec<Instruction> {
+/// A random program as Quil text pieces (each piece parses on its own): declarations, `ncal` calibrations
+/// (gate and measurement), `nbody` body instructions.
+pub fn random_program_texts(rng: &mut Rng, mode: Mode, ncal: u64, nbody: u64, elsewhere: bool) -> Vec<String> {
     let mut out = vec![];
     for d in ["DECLARE ro BIT[4]", "DECLARE other REAL[2]", "DECLARE theta REAL[1]"] {
         if rng.chance(4, 5) {
-            out.push(one(d));
+            out.push(d.to_string());
         }
     }
     let headers: Vec<Header> =
         (0..ncal).map(|_| if rng.chance(7, 10) { random_header(rng) } else { random_measure_header(rng) }).collect();
     for h in &headers {
-        let text = defcal_for(rng, mode, &headers, h, 3, elsewhere);
-        out.push(one(&text));
+        out.push(defcal_for(rng, mode, &headers, h, 3, elsewhere));
     }
     let cx = Ctx { headers: &headers, qvars: vec![], pvars: vec![], formal: None, rank: None, top_level: true, mode };
     for _ in 0..nbody {
-        let text = body_instruction(rng, &cx);
-        out.extend(parse_all(&text));
+        out.push(body_instruction(rng, &cx));
     }
     out
+}
+
+/// The instruction list of the pieces, in order: what is handed to `Program::from_instructions`
+/// (definitions may repeat a signature: the later one replaces the earlier in place).
+pub fn parse_pieces(pieces: &[String]) -> Vec<Instruction> {
+    pieces.iter().flat_map(|t| parse_all(t)).collect()
+}
+
+/// A random program as an instruction list (see `random_program_texts`).
+pub fn random_program(rng: &mut Rng, mode: Mode, ncal: u64, nbody: u64, elsewhere: bool) -> Vec<Instruction> {
+    parse_pieces(&random_program_texts(rng, mode, ncal, nbody, elsewhere))
 }
